@@ -15,7 +15,7 @@ PROP = "C17"
 LEVEL = "fault_enumeration"
 MIN_VARIANTS = 1
 TIERS = {
-    "quick": {"cases": 150, "budget_s": 80, "batch": 32},
+    "quick": {"cases": 150, "budget_s": 150, "batch": 32},
     "thorough": {"cases": 1500, "budget_s": 900, "batch": 48},
 }
 RULE = (
